@@ -30,7 +30,9 @@ NOTE = (
     "runtime); structures of depth <= 3, n <= 4 events for element-level runs, <= 3 particles, 1-2 files"
 )
 TECHNIQUE = "path-forking symbolic execution of tf_pwa.data with symbolic sizes (z3 LIA) and per-element symbolic tracking of array contents on a symbolic tensorflow substitute"
-EXPLANATION = CLAIM
+CLAIM_EXTRA = "Splitting 1001 events into batches of one with an empty dict / list / tuple among the leaves (more batches than the generator's internal repetition count) reproduces the data."
+NOTE_EXTRA = ''
+EXPLANATION = CLAIM + " " + CLAIM_EXTRA
 FUNCTIONS = [
     "tf_pwa/data.py:_data_split", "tf_pwa/data.py:data_generator", "tf_pwa/data.py:data_split", "tf_pwa/data.py:data_merge", "tf_pwa/data.py:data_map", "tf_pwa/data.py:data_mask",
     "tf_pwa/data.py:data_index", "tf_pwa/data.py:data_shape", "tf_pwa/data.py:batch_call", "tf_pwa/data.py:batch_sum", "tf_pwa/data.py:data_replace", "tf_pwa/data.py:data_strip",
